@@ -5,10 +5,11 @@
    and group elements are taken from the implementation at run time. *)
 From Coq Require Import Reals ZArith List Bool Lra.
 From Coq Require Import QArith String.
-From Verif Require Import Scalar RInst KField KtoR Quat QuatAlg GroupK Groups SymDotK SectorModel SectorProofs
+From Verif Require Import Scalar RInst KField KtoR KSign Quat QuatAlg GroupK Groups SymDotK SectorModel SectorProofs
   CoverCheck CoverSound SectorCertsAll SectorDomain.
 Import ListNotations.
 Local Open Scope R_scope.
+Open Scope string_scope.
 
 (* the projection returns s * v for an operation s composed of listed group
    elements and their inverses -- for every direction (any length), every
@@ -140,4 +141,20 @@ Example C07_nonvacuous :
   in_sector ROps (1 / 1000000000) [(0, 0, 1)] (0, 0, 1) = true.
 Proof.
   unfold in_sector, vdot. cbn [forallb]. rsimpl. rewrite andb_true_r. apply Rltb_true. lra.
+Qed.
+
+(* non-vacuity of the hypotheses of C07_sector_has_no_overlaps / C07_exactly_one_operation: a certified subject
+   (point group -1, sector z >= 0) and a direction strictly inside its sector *)
+Definition pick_sc (name : string) : option sector_cert :=
+  find (fun sc => String.eqb (sc_name sc) name && negb (sc_laue sc)) (List.concat all_sector_certs).
+Example C07_overlap_hypotheses_nonvacuous :
+  exists sc (x : vec3 (T:=R)), In sc (List.concat all_sector_certs) /\ sc_N sc <> [] /\
+    (forall n, In n (sc_N sc) -> 0 < vdot ROps (vtoR n) x).
+Proof.
+  destruct (pick_sc "-1") as [sc|] eqn:E; [|vm_compute in E; discriminate].
+  exists sc, (0, 0, 1). unfold pick_sc in E. pose proof (find_some _ _ E) as [Hin _].
+  assert (HN : sc_N sc = [(K0, K0, K1)]).
+  { vm_compute in E. inversion E. reflexivity. }
+  split; [exact Hin|]. rewrite HN. split; [discriminate|].
+  intros n [<-|[]]. unfold vtoR, vdot. rewrite toR_K0, toR_K1. rsimpl. lra.
 Qed.
